@@ -522,7 +522,8 @@ def run_session_case(env, cfg, client, script):
             if st[0] == 'fail' and started and not closed:
                 # a failed request costs base + its own cost, on top of the bytes of request and
                 # reply; if that re-evaluates, the decay covers the time since the evaluation
-                sent = sum(len(c) for c in tr.out[nout:])
+                # _send_message charges the unframed message: without the framer's newline
+                sent = sum(len(c) - c.count(b'\n') for c in tr.out[nout:])
                 want = cost_before + (len(data) + sent) * cfg['bw'] + cfg['base'] + st[2]
                 alt = max(0.0, want - (started[0][2] - t0) * cfg['decay'])
                 if not any(abs(s.cost - w) <= 1e-6 * max(1.0, w) for w in (want, alt)):
@@ -620,20 +621,21 @@ def run(ctx):
     depth = 4
     ex = list(exhaustive_grid(depth))
     evaluate_acct(ctx, res, ex, 'exhaustive', thr)
-    if ctx.deep and not res.failed:
+    full = ctx.tier == 'thorough'
+    if full and not res.failed:
         depth = 5
         ex5 = [c for c in exhaustive_grid(5) if len(c[2]) == 5]
         evaluate_acct(ctx, res, ex5, 'exhaustive', thr)
         ex += ex5
     res['scopes']['exhaustive'] = {'alphabet': 11, 'max_len': depth, 'histories': len(ex)}
-    nrand = 120000 if ctx.deep and not res.failed else 6000
+    nrand = (120000 if full else 20000) if ctx.deep and not res.failed else 6000
     cases = []
     for _ in range(nrand):
         cfg = random_cfg(rng)
         cases.append((cfg, rng.random() < 0.15, random_history(rng, cfg)))
     evaluate_acct(ctx, res, cases, 'random', thr)
     res['scopes']['random_histories'] = nrand
-    nsess = 6000 if ctx.deep and not res.failed else 400
+    nsess = (6000 if full else 1200) if ctx.deep and not res.failed else 400
     scases = [random_session_script(rng) for _ in range(nsess)]
     evaluate_session(ctx, res, scases)
     res['scopes']['session'] = nsess
